@@ -132,6 +132,8 @@ theorem addMul_holds {t : IntTy} {π : Policy} (c : Cfg t π) (dir : Dir) (a : O
 
 example : IntOp.run .i8 .checkOverflowOnly .addMul .up { to0 := -100, x := 16, y := 16 } =
     (-100, V_UNKNOWN_POS_OVERFLOW) := by decide
+example : IntOp.run .i8 .checkOverflowOnly .addMul .down { to0 := -100, x := 16, y := 16 } = (27, V_GT) := by decide
+example : IntOp.run .i8 .checkOverflowOnly .addMul .up { to0 := 100, x := -16, y := 16 } = (-28, V_LT) := by decide
 
 theorem idiv_holds {t : IntTy} {π : Policy} (c : Cfg t π) (dir : Dir) (a : Operands)
     (hpre : IntOp.pre t π .idiv a = true) :
@@ -266,7 +268,10 @@ theorem subMul_holds {t : IntTy} {π : Policy} (c : Cfg t π) (dir : Dir) (a : O
   simp only [IntOp.run, IntOp.exact, Exact.toQ_ofExt]
   exact ok_toQ (subMulExt_ok c.wf c.larger c.checkOverflow dir ⟨z1, z2⟩ ⟨x1, x2⟩ ⟨y1, y2⟩ hp)
 
-example : IntOp.run .i8 .checkOverflowOnly .subMul .up { to0 := 0, x := 2, y := 64 } = (0, V_UNKNOWN_POS_OVERFLOW) := by decide
+example : IntOp.run .i8 .checkOverflowOnly .subMul .up { to0 := 0, x := 2, y := 64 } = (-127, V_LT) := by decide
+example : IntOp.run .i8 .checkOverflowOnly .subMul .down { to0 := 0, x := 2, y := 64 } = (0, V_UNKNOWN_POS_OVERFLOW) := by decide
+example : IntOp.run .i8 .checkOverflowOnly .subMul .down { to0 := -5, x := -2, y := 100 } = (123, V_GT) := by decide
+example : IntOp.run .u8 .checkOverflowOnly .subMul .up { to0 := 5, x := 20, y := 20 } = (5, V_UNKNOWN_POS_OVERFLOW) := by decide
 example : IntOp.run .i8 .extended .subMul .up { to0 := 0, x := 2, y := 64 } = (-126, V_LT_INF) := by decide
 example : IntOp.run .i8 .checkOverflowOnly .subMul .up { to0 := -1, x := 2, y := 64 } = (-128, V_LT_INF) := by decide
 
